@@ -226,9 +226,9 @@ def class_of_program(prog):
 
 
 def stale_read_py(prog):
-    """staleDynamicRead: the call reads x dynamically after a block that assigns x, and nothing reads x statically
-    afterwards (so the converter keeps the block's x local to the generated body)."""
-    return prog['kind'] == 'after' and not prog.get('static_read')
+    """staleDynamicRead: the call needs x, x is assigned inside a functionalised block, and nothing reads x
+    statically after that block (so the converter keeps the block's x local to the generated body)."""
+    return 'x' in prog.get('needs', []) and bool(prog['nest']) and not prog.get('static_read')
 
 
 def extract_writes(code, watched):
@@ -275,6 +275,8 @@ def extract_writes(code, watched):
 
 def body_hides_py(prog):
     """bodyHidesName: the call sits in a generated body and needs a user variable that body does not reference."""
+    if prog.get('wrap'):     # the call is an operand turned into a lambda, which references none of the user's variables
+        return bool(prog.get('needs'))
     return bool(prog['nest']) and any(n not in P.VISIBLE_IN_INNERMOST_BODY for n in prog.get('needs', []))
 
 
@@ -593,12 +595,14 @@ def _check(run, routes, only_case):
         run.case(('replay',), True)
         return
 
+    import time
+    t_sec = {'start': time.time()}
     # ---------------- 1. direct oracle ----------------
     outcomes = {}
     per_builtin = {}
     failing_direct = []
     sampled = set()
-    nrandom = 6 if quick else 60
+    nrandom = 6 if quick else 40
     for b in supported:
         W = V.ways(b, run.tier)
         if not W:
@@ -666,6 +670,7 @@ def _check(run, routes, only_case):
             fail('converted_call(%s, ...) differs from %s(...)' % (n, n),
                  {'kind': 'identity', 'builtin': n, 'builtin_did': want, 'converted_call_did': got}, None)
 
+    t_sec['direct'] = time.time()
     # ---------------- 2. frame-sensitive builtins in converted functions ----------------
     progs, pstat = P.frame_programs(run.tier, rng)
     run.cov['frame_programs'] = pstat
@@ -674,16 +679,16 @@ def _check(run, routes, only_case):
     features = ['none', 'BUILTIN_FUNCTIONS']
     jobs = []
     for pi, prog in enumerate(progs):
-        feats = features if (pi % 5 == 0 or not quick) else [features[pi % 2]]
+        feats = features if pi % (5 if quick else 2) == 0 else [features[pi % 2]]
         for feature in feats:
             jobs.append((prog, feature))
     stale_lines, stale_expect = [], []
     for (prog, feature), (what, det, recs) in zip(jobs, run_program_jobs(routes, jobs)):
-        run.case(('program', prog['call'], tuple(prog['nest']), feature), True)
+        run.case(('program', prog['call'], tuple(prog['nest']), prog.get('wrap'), feature), True)
         if 'writes' in det:
             stale_lines.append('c14.class.stale %s %s' % (sexp(list(prog.get('needs', []))), sexp([[n, b, d] for n, b, d in det['writes']])))
             stale_expect.append(sexp(stale_read_py(prog)))
-        kd = '%s@%d' % (prog['kind'], len(prog['nest']))
+        kd = '%s@%d%s' % (prog['kind'], len(prog['nest']), '+' + prog['wrap'] if prog.get('wrap') else '')
         st = by_kind_depth.setdefault(kd, [0, 0])
         st[0] += 1
         for r in recs:
@@ -697,6 +702,8 @@ def _check(run, routes, only_case):
             run.sample({'program': prog['src'], 'feature': feature, 'results': det})
     run.cov['frame_programs_by_kind@depth [run, differing]'] = by_kind_depth
 
+    t_sec['programs'] = time.time()
+    run.cov['seconds'] = {'direct_oracle': round(t_sec['direct'] - t_sec['start'], 1), 'programs': round(t_sec['programs'] - t_sec['direct'], 1)}
     # ---------------- 3. correspondence model <-> implementation ----------------
     if not run.driver_ok:
         run.oblige('correspondence:c14', 'correspondence', False, 'driver unavailable')
@@ -1027,6 +1034,7 @@ def _check(run, routes, only_case):
         expect.append(eval_class_py(extra))
     corr('c14.class.eval', lines, expect)
 
+    run.cov['seconds']['correspondence'] = round(time.time() - t_sec['programs'], 1)
     run.cov['exhaustive'] = False
     run.cov['search'] = ('direct oracle on %d builtin calls (every way x value families x 3 routes), %d generated programs x features; '
                          'on a broken obligation the same oracle is the search (the disagreeing shapes are among the ways enumerated)'
